@@ -132,13 +132,13 @@ func Num(n int, f NumForm) []byte {
 type KeyEnc int
 
 const (
-	EncCanonical       KeyEnc = iota // keypair.SerializePublicKey
-	EncUncompressed                  // point written as 04|X|Y
-	EncTrailing                      // canonical + 1..3 ignored bytes
-	EncUncompTrailing                // 04|X|Y + ignored bytes
-	EncLong                          // P-256 only: PK_ECDSA|P256|compressed point
-	EncLongUncompressed              // P-256 only: PK_ECDSA|P256|04|X|Y
-	EncLongTrailing                  // P-256 only: long form + ignored bytes
+	EncCanonical        KeyEnc = iota // keypair.SerializePublicKey
+	EncUncompressed                   // point written as 04|X|Y
+	EncTrailing                       // canonical + 1..3 ignored bytes
+	EncUncompTrailing                 // 04|X|Y + ignored bytes
+	EncLong                           // P-256 only: PK_ECDSA|P256|compressed point
+	EncLongUncompressed               // P-256 only: PK_ECDSA|P256|04|X|Y
+	EncLongTrailing                   // P-256 only: long form + ignored bytes
 	NumKeyEncs
 )
 
@@ -596,7 +596,8 @@ func accountOfParsed(pubs []keypair.PublicKey, m int, multi bool) common.Address
 // Verdict of Reverify.
 type Verdict struct {
 	OK        bool
-	Why       string // first failed clause ("" when OK)
+	Why       string // first failed clause ("" when OK), human readable
+	Clause    string // the same as a structural code (violation keys)
 	Accounts  []common.Address
 	DupKeys   bool // some set lists the same key twice
 	Surplus   bool // some set carries more than m signatures
@@ -615,6 +616,7 @@ func Reverify(tx *types.Transaction) Verdict {
 	}
 	if sigLen > len(tx.Raw) {
 		v.Why = "signature section longer than raw bytes"
+		v.Clause = "raw-bytes-inconsistent"
 		return v
 	}
 	h := Hash(tx.Raw[:len(tx.Raw)-sigLen])
@@ -622,26 +624,31 @@ func Reverify(tx *types.Transaction) Verdict {
 	v.HashMatch = bytes.Equal(h[:], th[:])
 	if !v.HashMatch {
 		v.Why = "tx.Hash() is not sha256d of the unsigned bytes"
+		v.Clause = "hash-not-sha256d-of-unsigned-bytes"
 		return v
 	}
 	if len(tx.Sigs) > 16 {
 		v.Why = "more than 16 signature sets"
+		v.Clause = "more-than-16-sets"
 		return v
 	}
 	for si, rs := range tx.Sigs {
 		keyBytes, m, multi, err := ParseVerify(rs.Verify)
 		if err != nil {
 			v.Why = fmt.Sprintf("set %d: verification script: %v", si, err)
+			v.Clause = "verification-script-unreadable"
 			return v
 		}
 		sigs, err := ParseInvoke(rs.Invoke)
 		if err != nil {
 			v.Why = fmt.Sprintf("set %d: invocation script: %v", si, err)
+			v.Clause = "invocation-script-unreadable"
 			return v
 		}
 		n := len(keyBytes)
 		if m < 1 || m > n || n > 16 || (multi && n < 2) {
 			v.Why = fmt.Sprintf("set %d: bad threshold m=%d n=%d", si, m, n)
+			v.Clause = "bad-threshold"
 			return v
 		}
 		var pubs []keypair.PublicKey
@@ -651,6 +658,7 @@ func Reverify(tx *types.Transaction) Verdict {
 			p, err := keypair.DeserializePublicKey(kb)
 			if err != nil {
 				v.Why = fmt.Sprintf("set %d: key does not decode: %v", si, err)
+				v.Clause = "key-does-not-decode"
 				return v
 			}
 			pubs = append(pubs, p)
@@ -695,6 +703,7 @@ func Reverify(tx *types.Transaction) Verdict {
 		}
 		if good < m {
 			v.Why = fmt.Sprintf("set %d: only %d of the required %d distinct keys have a valid signature", si, good, m)
+			v.Clause = "too-few-distinct-keys-signed"
 			return v
 		}
 		v.Accounts = append(v.Accounts, accountOfParsed(pubs, m, multi))
@@ -706,6 +715,7 @@ func Reverify(tx *types.Transaction) Verdict {
 		}
 	}
 	v.Why = "payer is not among the signer accounts"
+	v.Clause = "payer-not-a-signer"
 	return v
 }
 
